@@ -2,6 +2,7 @@ import GoatSpec.Proto
 import GoatSpec.Mark
 import GoatSpec.MarkSpec
 import GoatSpec.Layout
+import GoatSpec.Coherence
 import GoatSpec.Drv.Text
 import GoatSpec.Splice
 import GoatSpec.Extracted
@@ -361,10 +362,28 @@ def judgeWfLegal (f : File) (toks : List String) : String :=
     | .error _ => "skip"
     | .ok m => if m.multi.all (legalLine f) then "ok" else "bad C01:theorem-marks_legal-contradicted"
 
+/-- judge:coh <ranges> — does the input meet the coherence hypothesis of `C09.func_le_scope`
+    (`skip coh:…` when not); when it does, the theorem's conclusion is cross-checked on the
+    model's own counts -/
+def judgeCoh (f : File) (toks : List String) : String :=
+  match (many pair : P (List (Nat × Nat))).run toks with
+  | .error e => s!"error parse {e.replace " " "_"}"
+  | .ok (rs, _) =>
+    match mkEnv f .scope rs with
+    | .error _ => "skip coh:no-env"
+    | .ok env =>
+      let a := activeLines env (fileEvents (fun l => env.changed.getD l false) f)
+      if !a.all (cohLine env) then "skip coh:line"
+      else if !(a.all (selfKey env) || a.all (fun l1 => a.all (freshPair env l1))) then "skip coh:shared-position"
+      else match marks f .func rs, marks f .scope rs with
+        | .ok mF, .ok mS => if mF.count ≤ mS.count then "ok" else "bad C09:theorem-func_le_scope-contradicted"
+        | _, _ => "skip coh:no-run"
+
 def handleMarkJudge (cur : Option Loaded) (toks : List String) : Option String :=
   match toks, cur with
   | "judge:wf" :: _, some l => some (judgeWf l.c.f)
   | "judge:wflegal" :: rest, some l => some (judgeWfLegal l.c.f rest)
+  | "judge:coh" :: rest, some l => some (judgeCoh l.c.f rest)
   | "judge:marks" :: rest, some l => some (judgeMarks l.c l.reached l.reachedSingles rest)
   | "debug:marks" :: rest, some l => some (judgeMarks l.c l.reached l.reachedSingles ("debug" :: rest))
   | "judge:marks" :: _, none => some "error no-file-loaded"
